@@ -278,6 +278,9 @@ class WCA(Optimizer):
             # Performs the raining process (Equation 12)
             self._raining_process(space.agents, space.best_agent)
 
+            # Checking if the new streams meet the bounds limits
+            space.check_limits()
+
             # Updates the evaporation condition
             self.d_max -= (self.d_max / space.n_iterations)
 
